@@ -2250,16 +2250,9 @@ void Interpreter::assign_struct_to_array_element(const std::string &array_name,
     element_var->is_assigned = true;
 
     // 各メンバー変数も更新（例: tasks[0].task_id）
-    for (const auto &member : struct_value.struct_members) {
-        std::string member_path = element_name + "." + member.first;
-        Variable *member_var = find_variable(member_path);
-        if (member_var) {
-            *member_var = member.second;
-        } else {
-            // メンバー変数が存在しない場合は作成
-            current_scope().variables[member_path] = member.second;
-        }
-    }
+    // 構造体代入（o2 = o1）と同じく、ネストした構造体メンバー
+    // （tasks[0].in.a）や配列メンバーの要素変数まで再帰的に更新する
+    sync_direct_access_from_struct_value(element_name, *element_var);
 
     debug_msg(DebugMsgId::INTERPRETER_STRUCT_REGISTERED,
               "Struct assigned to array element: %s[%lld]", array_name.c_str(),
